@@ -115,7 +115,7 @@ func (c *Ctx) assigned(list []ast.Stmt) []*vinfo {
 func (c *Ctx) mutRecv(call *ast.CallExpr, f func(ast.Expr)) {
 	if sel, ok := call.Fun.(*ast.SelectorExpr); ok {
 		if id, ok := sel.X.(*ast.Ident); ok {
-			if v, ok := c.vars[id.Name]; ok && v.ty == "big" {
+			if _, v := c.lhsName(id); v != nil && v.ty == "big" { // a variable, or an expression mapped to a parameter
 				f(id)
 			}
 		}
@@ -199,6 +199,12 @@ func (c *Ctx) stmts(list []ast.Stmt, k cont) ([]string, error) {
 		return nil, c.errf(s, "unsupported statement %s", render(s))
 	case *ast.IfStmt:
 		return c.ifStmt(s, rest)
+	case *ast.SwitchStmt:
+		chain, err := c.switchChain(s)
+		if err != nil {
+			return nil, err
+		}
+		return c.stmts(append(chain, list[1:]...), k)
 	case *ast.RangeStmt:
 		return then(c.rangeStmt(s))
 	case *ast.ForStmt:
@@ -316,7 +322,7 @@ func (c *Ctx) assign(s *ast.AssignStmt) ([]string, error) {
 		}
 		if call, ok := r.(*ast.CallExpr); ok && len(s.Rhs) == 1 && x.ty == "big" { // x.Op(..) also updates x
 			c.mutRecv(call, func(e ast.Expr) {
-				v := c.vars[e.(*ast.Ident).Name]
+				_, v := c.lhsName(e)
 				pre = append(pre, "let "+v.lean+" : Int := "+x.s)
 				x.s = v.lean
 			})
@@ -464,6 +470,58 @@ func (c *Ctx) ifStmt(s *ast.IfStmt, rest cont) ([]string, error) {
 	}
 	out = append(out, "else")
 	return append(out, indent(b)...), nil
+}
+
+// switchChain rewrites a switch (no init statement, no break/fallthrough) into the equivalent
+// if / else-if chain; the default clause becomes the final else wherever it is written.
+func (c *Ctx) switchChain(s *ast.SwitchStmt) ([]ast.Stmt, error) {
+	if s.Init != nil {
+		return nil, c.errf(s, "switch with an init statement is not supported")
+	}
+	var dflt []ast.Stmt
+	var clauses []*ast.CaseClause
+	for _, cl := range s.Body.List {
+		cc := cl.(*ast.CaseClause)
+		bad := false
+		for _, b := range cc.Body {
+			ast.Inspect(b, func(n ast.Node) bool {
+				if _, ok := n.(*ast.BranchStmt); ok {
+					bad = true
+				}
+				return !bad
+			})
+		}
+		if bad {
+			return nil, c.errf(cc, "break/fallthrough/continue/goto inside a switch clause is not supported")
+		}
+		if cc.List == nil {
+			dflt = cc.Body
+			if dflt == nil {
+				dflt = []ast.Stmt{}
+			}
+		} else {
+			clauses = append(clauses, cc)
+		}
+	}
+	var tail ast.Stmt
+	if dflt != nil {
+		tail = &ast.BlockStmt{Lbrace: s.Body.Lbrace, List: dflt}
+	}
+	for i := len(clauses) - 1; i >= 0; i-- {
+		cc := clauses[i]
+		cond, err := c.caseCond(s, cc)
+		if err != nil {
+			return nil, err
+		}
+		tail = &ast.IfStmt{If: cc.Pos(), Cond: cond, Body: &ast.BlockStmt{Lbrace: cc.Colon, List: cc.Body}, Else: tail}
+	}
+	switch t := tail.(type) {
+	case nil:
+		return nil, nil
+	case *ast.BlockStmt:
+		return t.List, nil
+	}
+	return []ast.Stmt{tail}, nil
 }
 
 func balanced(s string) bool {
